@@ -25,7 +25,9 @@ TS = [0.0, 0.25, 0.5, 0.75, 1.0, 0.3]
 def beziers():
     return [sp.Line(0j, 3 + 4j), sp.Line(2 - 1j, -3 + 0j),
             sp.QuadraticBezier(0j, 2 + 3j, 5 + 0j), sp.QuadraticBezier(1 + 1j, 1 + 1j, 4 - 2j),
-            sp.CubicBezier(1 + 1j, 4j, 4 + 4j, 5 - 1j), sp.CubicBezier(0j, 3 + 0j, 3 + 0j, 0 + 3j)]
+            sp.CubicBezier(1 + 1j, 4j, 4 + 4j, 5 - 1j), sp.CubicBezier(0j, 3 + 0j, 3 + 0j, 0 + 3j),
+            # straight but not uniformly parameterised: handles retracted onto the end points / unevenly spaced on the chord; a quadratic with its control on an end
+            sp.CubicBezier(1 + 1j, 1 + 1j, 5 - 2j, 5 - 2j), sp.CubicBezier(0j, 1 + 1j, 4 + 4j, 6 + 6j), sp.QuadraticBezier(2 + 0j, 2 + 0j, 5 + 4j)]
 
 
 def arcs():
@@ -34,6 +36,11 @@ def arcs():
               {'r': [2, 7], 'phi': 3, 'th': 9, 'dl': 13, 'c': [1, 1]}, {'r': [5, 3], 'phi': 6, 'th': 0, 'dl': -4, 'c': [-2, 4]},
               {'r': [13, 13], 'phi': 26, 'th': 11, 'dl': 23, 'c': [0, 1]}):
         out.append(am.concretise(A))
+    # arcs on the boundary of validity: chord = diameter (semicircle, rotated semi-ellipse), and radii too small for the chord (enlarged by the constructor)
+    out.append(sp.Arc(0j, 5 + 5j, 0, False, True, 10 + 0j))
+    out.append(sp.Arc(1 + 1j, 4 + 2j, 30, False, False, 1 + 1j + 8 * cmath.exp(1j * math.radians(30))))
+    out.append(sp.Arc(1 + 1j, 1 + 1j, 15, False, True, 11 + 4j))
+    out.append(sp.Arc(-3 + 2j, 10 + 7j, 15, True, True, 40 - 9j))
     return out
 
 
@@ -72,7 +79,7 @@ def seg_ops(ck, rnd, matrices, quick):
         name = type(seg).__name__
         tolx = 1e-12 if isbez else 1e-6
         # translated
-        for z in (3 - 2j, -7 + 0.5j, 1e6 + 1e-3j):
+        for z in (3 - 2j, -7 + 0.5j, 1e6 + 1e-3j, 0.1 + 0.2j, 1 / 3.0 - 1j / 7.0, 1e-3 + 7j, 123.456 - 78.9j, -0.7 - 1e-9j):
             ck.case(fp=('translated', si, z), nontrivial=True)
             try:
                 new = seg.translated(z)
